@@ -48,29 +48,61 @@ SEL_ATOMS = None
 
 
 def rand_selection(rng, g):
-    """selection expression aimed at the program's own addresses"""
+    """selection expression aimed at the program's own addresses (hierarchical shapes favoured)"""
     spaths = sorted({gfi.strip_lanes(p) for p in gfi.all_paths(g)})
+    deep = [p for p in spaths if len(p) >= 2]
+
+    def tup(p):
+        return ("tup",) + tuple(p)
+
     def atom():
         r = rng.random()
         p = rng.choice(spaths)
-        if r < 0.1:
+        if r < 0.08:
             return ("all",)
-        if r < 0.2:
+        if r < 0.16:
             return ("none",)
-        if r < 0.5:
+        if r < 0.4:
             return ("str", p[0])
         if r < 0.85:
             k = rng.randint(1, len(p))
-            return ("tup",) + tuple(p[:k])
-        return ("dict", (p[0], ("all",) if len(p) == 1 else ("tup",) + tuple(p[1:])))
+            return tup(p[:k])
+        return ("dict", (p[0], ("all",) if len(p) == 1 else tup(p[1:])))
+
+    def sibling_pair():
+        """two selections sharing their first address component"""
+        p = rng.choice(deep)
+        sibs = [q for q in deep if q[0] == p[0] and q != p]
+        q = rng.choice(sibs) if sibs else p
+        forms = [
+            (tup(p), tup(q)),
+            (tup(p), ("str", p[0])),
+            (("str", p[0]), tup(q)),
+            (("dict", (p[0], tup(p[1:]))), tup(q)),
+            (tup(p[:1]), ("dict", (p[0], tup(q[1:])))),
+        ]
+        return rng.choice(forms)
+
     r = rng.random()
-    if r < 0.45:
+    if deep and r < 0.3:
+        a, b = sibling_pair()
+        k = rng.random()
+        if k < 0.45:
+            return ("union", a, b)
+        if k < 0.65:
+            return ("inter", a, ("compl", b))
+        if k < 0.8:
+            return ("inter", ("union", a, b), a)
+        if k < 0.9:
+            return ("compl", ("union", a, b))
+        return ("union", ("inter", a, b), b)
+    if r < 0.55:
         return atom()
-    if r < 0.65:
+    if r < 0.7:
         return ("union", atom(), atom())
-    if r < 0.8:
+    if r < 0.82:
         return ("compl", atom())
-    if r < 0.9:
+    if r < 0.92:
         return ("inter", atom(), ("compl", atom()))
     return ("union", ("compl", atom()), atom())
 
